@@ -32,7 +32,7 @@ CHECKS = {
         "test": "TestVerifC18",
         "level": "exploration",
         "quick": {"procs": 32, "checks_per_proc": 20000},
-        "thorough": {"procs": 64, "checks_per_proc": 100000},
+        "thorough": {"procs": 64, "checks_per_proc": 400000},
         "rule": "one case = (variant, limit, frame sizes incl. limit-1/limit/limit+1, chunking of the byte "
                 "stream into reads, fault kind and byte offset); non-trivial = the stream was chunked into "
                 "more than one read or a fault (EOF, read error, write error, oversize, malformed length, "
@@ -61,7 +61,7 @@ CHECKS = {
         "test": "TestVerifC10",
         "level": "fault_enumeration",
         "quick": {"procs": 32, "checks_per_proc": 250},
-        "thorough": {"procs": 64, "checks_per_proc": 1500},
+        "thorough": {"procs": 64, "checks_per_proc": 5000},
         "rule": "one case = one seeded send/announce/register/open/named-key workload (window 1..4, batched or unbatched "
                 "datastore writes, contact or multi-member group) for which EVERY datastore mutation index of the sender's "
                 "and of the receiver's disk is taken as a crash point (restart on the first k mutations, batches atomic) and "
@@ -78,7 +78,7 @@ CHECKS = {
         "instrument": ["internal/queue"],
         "level": "exploration",
         "quick": {"procs": 32, "checks_per_proc": 12000},
-        "thorough": {"procs": 64, "checks_per_proc": 80000},
+        "thorough": {"procs": 64, "checks_per_proc": 240000},
         "rule": "one case = (scenario: 1-2 producers, 1-3 unique items, optional cancellation, optional concurrent Pop; or 1-2 tasks of "
                 "Add/Next/NextAll/Size on the priority queue) x one goroutine schedule chosen at every instrumented lock/unlock/select "
                 "of internal/queue by the seeded scheduler (3 strategies); non-trivial = the schedule contains at least one preemption "
@@ -254,7 +254,7 @@ CHECKS = {
         "test": "TestVerifC11",
         "level": "exploration",
         "quick": {"procs": 32, "checks_per_proc": 150},
-        "thorough": {"procs": 64, "checks_per_proc": 1500},
+        "thorough": {"procs": 64, "checks_per_proc": 4000},
         "rule": "one case = 2-3 accounts growing to several devices through export/import, with a seeded sequence of first uses of "
                 "derived keys in both orders, restarts, loss of the recomputable key-cache class on SimDisk, imports refused on used "
                 "stores and malformed imports (equal keys, non-Ed25519, garbage, truncated, empty); after EVERY step the cross-store "
@@ -269,7 +269,7 @@ CHECKS = {
         "level": "exploration",
         "proc_timeout": "60m",
         "quick": {"procs": 32, "checks_per_proc": 1500},
-        "thorough": {"procs": 64, "checks_per_proc": 15000},
+        "thorough": {"procs": 64, "checks_per_proc": 120000},
         "rule": "one case = two peers with a rotation interval from {1 s, 2 s, 7 s, 1 min, 1 h, 24 h, static} on the simulated clock and a "
                 "seeded history of 2-20 events: register (same or another period), advance the clock (within the period, exactly to the "
                 "boundary, boundary -1 s / +1 s, across two boundaries, across the grace period), resolve, exchange rotation values, "
@@ -327,7 +327,7 @@ CHECKS = {
         "level": "exploration",
         "proc_timeout": "60m",
         "quick": {"procs": 32, "checks_per_proc": 60},
-        "thorough": {"procs": 64, "checks_per_proc": 600},
+        "thorough": {"procs": 64, "checks_per_proc": 3000},
         "rule": "one case = a seeded account history (0-9 contact / contact-request operations, optionally a joined multi-member group "
                 "with 0-5 metadata/message entries) exported by the real service.export at that point, one archive fault from "
                 "{none, flipped bit in an entry / heads / key member, dropped entry, dropped key, duplicated key, duplicated entry, "
@@ -363,7 +363,7 @@ CHECKS = {
         "proc_timeout": "60m",
         "gomaxprocs": 2,
         "quick": {"procs": 32, "checks_per_proc": 12},
-        "thorough": {"procs": 64, "checks_per_proc": 150},
+        "thorough": {"procs": 64, "checks_per_proc": 500},
         "rule": "one case = a fresh real service (TestingService on an in-memory mocknet) receiving a seeded session of 1-25 steps: any "
                 "method of the protocol service interface (found by reflection; 2 methods needing an external HTTP issuer excluded) "
                 "with every request field drawn from an edge-value pool (nil, empty, 1/31/32/33/4096 bytes, valid keys known to the "
